@@ -11,7 +11,7 @@ pub fn prop() -> Prop {
     Prop {
         id: "C20",
         level: "model_checking",
-        rule: "the real jawk binary built from the working tree, spawned with pipes: 16 inputs (clean, noisy, truncated tail, empty; 3000 rows, one 70 KB row, 1500 diagnostics, a long clean stream with a truncated tail - output beyond every stdout buffer) x 4 --on-error policies x 13 configurations (5 valid pipelines, 6 classes of invalid configuration, missing input file, file argument) x stdout in {pipe, pipe whose reader is gone (EPIPE), /dev/full} x row separator with/without newline; all combinations; non-trivial = the run produces output or must fail; distinct by construction",
+        rule: "the real jawk binary built from the working tree, spawned with pipes: 16 inputs (clean, noisy, truncated tail, empty; 3000 rows, one 70 KB row, 1500 diagnostics, a long clean stream with a truncated tail - output beyond every stdout buffer) x 4 --on-error policies x 18 configurations (5 valid pipelines, 11 classes of invalid configuration, missing input file, file argument) x stdout in {pipe, pipe whose reader is gone (EPIPE), /dev/full} x row separator with/without newline; all combinations; non-trivial = the run produces output or must fail; distinct by construction",
         explanation: "every combination is executed as a child process and compared with the in-process run of the same arguments: stdout = exactly the in-process stdout sink, under --on-error=stderr the diagnostics = exactly the in-process stderr sink and none on stdout, exit status 0 iff the in-process Result is Ok and stdout accepted every byte, otherwise non-zero with a non-empty stderr",
         assumptions: a,
         guards: vec!["output-beyond-every-buffer", "exit-nonzero-on-config-error", "exit-nonzero-on-full-stdout", "epipe", "stderr-policy-diagnostics", "unterminated-buffer-flush", "panic-policy-fails", "missing-file"],
@@ -53,6 +53,11 @@ fn configs() -> Vec<(&'static str, Vec<&'static str>, bool)> {
         ("style-mismatch", vec!["--output-style=csv", "--select=.a", "--style=pretty"], false),
         ("csv-without-selection", vec!["--output-style=csv"], false),
         ("bad-option-value", vec!["--on-error=abort"], false),
+        ("style-triple-text", vec!["--output-style=text", "--select=.a=A", "--utf8-strings", "--headers"], false),
+        ("style-triple-json", vec!["--select=.a=A", "--null-keyword=x", "--style=consise"], false),
+        ("csv-with-merge", vec!["--output-style=csv", "--select=.a=A", "--merge"], false),
+        ("dangling-separator", vec!["--select=.a.=A"], false),
+        ("take0-bad-sort", vec!["--take=0", "--sort-by=.a=UP"], false),
     ]
 }
 
